@@ -1123,6 +1123,55 @@ def cell_non_empty_assumed():
                       returns=lambda c: VBool(CELL_NE(c.args["val"].t)), assumed=True)
 
 
+# ------------------------------------------- slide text accessors (round 7: verified) --
+def slide_parts(cls, e, opt_title):
+    """(length, Array k |-> part k) of the parts `text_combined` joins, written from the class documentation ("all text from this
+    slide combined"): the title when there is a non-empty one, then every body text, then every other text, in stored order."""
+    title = _f(cls, "title")(e)
+    has = z3.Length(title) > 0
+    if opt_title:
+        has = z3.And(z3.Not(fld(cls, "title.is_none", B)(e)), has)
+    nb, no = fld_len(cls, "body_text")(e), fld_len(cls, "other_text")(e)
+    body, other = fld_at(cls, "body_text", S), fld_at(cls, "other_text", S)
+    off = z3.If(has, 1, 0)
+    j = K - off
+    rest = z3.If(j < nb, body(e, j), other(e, j - nb))
+    return off + nb + no, z3.Lambda([K], z3.If(z3.And(has, K == 0), title, rest)), has
+
+
+def text_combined_contract(cls, opt_title):
+    """`<slide>.text_combined` (property): VERIFIED on the real body.  The unit text of a ppt / odp slide is this value (SPEC above keeps
+    the abstract name `<cls>.text_combined()(instance)` at call sites: the verified clause gives it as a function of the instance's
+    fields only, which is what the call-site view says)."""
+    def parts_of(c):
+        return slide_parts(cls, c.args["self"].t, opt_title)
+
+    def returns(c):
+        n, lam, _ = parts_of(c)
+        return VStr(JOIN(NL, lam, n))
+
+    def e_each(c):
+        # element-wise reading of the same claim, independent of how z3 compares the two lambdas: the joined sequence has the
+        # length of the spec and the same element at every position
+        n, lam, _ = parts_of(c)
+        r = c.result.t if isinstance(c.result, VStr) else None
+        if r is None or not (z3.is_app(r) and r.decl().name() == "str_join" and r.num_args() == 3):
+            from pyvc.ops import Unsupported
+            raise Unsupported("text_combined does not return a join over a sequence the executor follows")
+        k = z3.Int("k!tc")
+        return z3.And(r.arg(0) == NL, r.arg(2) == n,
+                      z3.ForAll([k], z3.Implies(z3.And(k >= 0, k < n), z3.Select(r.arg(1), k) == z3.Select(lam, k))))
+
+    return FnContract(
+        target=f"{DT}::{cls}.text_combined",
+        params=[("self", p_ext(cls))],
+        ensures=[("parts-are-title-then-body-texts-then-other-texts-joined-by-newline", e_each)],
+        raises=[],
+        note="text_combined == '\\n'.join([title if non-empty] + body_text + other_text) over lists of symbolic length",
+    )
+
+
+
 # ------------------------------------------------------------ opaque members --
 def install_opaque():
     OP = X.UnitsExecutor.OPAQUE
@@ -1154,6 +1203,56 @@ class C03Executor(ET.ETreeMixin, X.UnitsExecutor):
     """+ loops under an invariant are found by what they iterate (contract attribute `loop_finder`);
     + paths that went through an over-approximation (EXC-ANY call, loop cut without invariant) carry the marker OVER: a
       solver model on such a path is not a counter-example (the VC becomes `unknown`, the native replayer decides)."""
+
+    # round 7: list concatenation / `+=` / insert(0, x) where one side has symbolic length (other ways of writing the part lists of
+    # the slide text accessors)
+    def _as_seq(self, st, v):
+        if isinstance(v, VSeq):
+            return v
+        if isinstance(v, VRef):
+            o = st.obj(v.ref)
+            if o.kind == "alist":
+                return o.data
+            if o.kind == "list":
+                items = list(o.data)
+                kinds = {repr(X.ekind_of_value(x)) for x in items}
+                ek = X.ekind_of_value(items[0]) if len(kinds) == 1 else "unk"
+                return VSeq(z3.IntVal(len(items)), lambda k, items=items: X._sel(items, k), ek)
+        return None
+
+    def b_collection(self, st, name, args, node):
+        if name == "list" and len(args) == 1 and isinstance(args[0], VSeq) and args[0].ekind != "unk":
+            return [(st, self.new_alist(st, args[0]))]          # list(<symbolic sequence>): a fresh mutable copy (may be appended to / inserted into)
+        return super().b_collection(st, name, args, node)
+
+    def binop(self, st, op, a, b, node, inplace=False):
+        if op == "Add" and not isinstance(a, VUnk) and not isinstance(b, VUnk):
+            sa, sb = self._as_seq(st, a), self._as_seq(st, b)
+            symbolic = any(isinstance(x, VSeq) or (isinstance(x, VRef) and st.obj(x.ref).kind == "alist") for x in (a, b))
+            if sa is not None and sb is not None and symbolic:
+                if inplace and isinstance(a, VRef):
+                    o = st.obj(a.ref)
+                    for (s2, _v) in (self.alist_method if o.kind == "alist" else self.list_method)(st, a, "extend", [b], {}, node):
+                        return [(s2, None)]
+                r = self.new_alist(st, sa)
+                out = self.alist_method(st, r, "extend", [b if not isinstance(b, VRef) or st.obj(b.ref).kind != "list" else sb], {}, node)
+                return [(s2, r) for (s2, _v) in out]
+        return super().binop(st, op, a, b, node, inplace)
+
+    def alist_method(self, st, obj, name, args, kwargs, node):
+        if name == "insert" and len(args) == 2 and isinstance(args[0], VInt) and args[0].const() == 0:
+            o = st.obj(obj.ref)
+            sq = o.data
+            v = self.freeze(st, args[1])
+            n0, old = sq.length, sq.elem
+            if sq.ekind != "unk" and X.ekind_of_value(v) == sq.ekind:
+                new = VSeq(z3.simplify(n0 + 1), lambda k, old=old, v=v: X._ite_val(k == 0, v, old(k - 1)), sq.ekind)
+            else:
+                new = VSeq(z3.simplify(n0 + 1), lambda k: VUnk("elem"), "unk")
+            self.note_store(st, obj.ref, node)
+            st.heap[obj.ref] = HeapObj("alist", new, None, o.fresh)
+            return [(st, NONE)]
+        return super().alist_method(st, obj, name, args, kwargs, node)
 
     def loop_spec(self, node):
         c = self.contract
@@ -1504,6 +1603,8 @@ def contracts(reg):
     out.append(last_data_row_contract())
     out.append(last_data_column_contract())
     out.append(cell_non_empty_assumed())
+    out.append(text_combined_contract("PptSlideContent", True))
+    out.append(text_combined_contract("OdpSlide", False))
     # e-mail glue shared with C16 (message boundaries and the body text that becomes the unit are part of both properties): the
     # mailbox splitter and the .eml body assembly are verified here under C16's contracts (with C16's
     # executor, see EXECUTOR); C16's remaining contracts are only registered, so that calls inside these functions use them
